@@ -218,7 +218,9 @@ void run(const Json& plan)
             if (s.body.size() > 4096) r.probe("request-larger-than-a-receive-buffer");
             if (q.num("think_us", 0) > 0) steps.push_back(httpw::step(actors::Step::Pause, q.num("think_us") * 1000));
             steps.push_back(httpw::send_step(actors::http_request(s.method, "/" + s.path + "/" + s.tag, { { "Host", "sim" }, { "Connection", "keep-alive" } }, s.body)));
-            steps.push_back(httpw::step(actors::Step::Await, 2000LL * 1000000LL, static_cast<int>(k + 1)));
+            // (no clause of C09 bounds the latency; a crowd under injected thread stalls - about one per 300 decision points, up to
+            // 45 ms each - legitimately takes seconds of simulated time, so its clients are patient)
+            steps.push_back(httpw::step(actors::Step::Await, (plan.flag("crowd") ? 120000LL : 2000LL) * 1000000LL, static_cast<int>(k + 1)));
         }
         steps.push_back(httpw::step(actors::Step::Close));
         auto cl = std::make_shared<actors::Client>(static_cast<int>(i), port, steps);
@@ -245,7 +247,7 @@ void run(const Json& plan)
     };
     bool interrupted = false;
     if (shutdown_at < 0) {
-        scen::wait_for(all_done, 30LL * 1000000000LL, "driver.wait-clients");
+        scen::wait_for(all_done, (plan.flag("crowd") ? 150LL : 30LL) * 1000000000LL, "driver.wait-clients");
         sim::sleep_ns(2 * 1000000);
     } else {
         sim::sleep_ns(shutdown_at * 1000);
